@@ -10,7 +10,9 @@ three sensor back-rotation paths (unrotated / static orientation / general); han
 pixel regrouping by equal shapes or by the cumulative `pix_inds` split; pixel_agg; sumup
 (`level2Core`, the part before the code branches on `output`); then either squeeze /
 expand_dims (`getBH`, ndarray output) or the `itertools.product` index next to `B.reshape(-1, 3)`
-(`dataframe`, output="dataframe").  Assumed (numpy semantics, exercised by the correspondence stream): tile/repeat/
+(`dataframe`, output="dataframe").  `level2CoreF` / `getBHF` / `dataframeF` (c03post) are the same statements in the
+same order with `pixel_agg` an arbitrary reduction of the pixel list; `tensorAggFirst` and `cyclicGet` are the two seeded
+wrong orders kept as counter-models for witness theorems only.  Assumed (numpy semantics, exercised by the correspondence stream): tile/repeat/
 reshape produce the (source, path, pixel) row order; grouping sources by field function and
 scattering the group results back by `order` is the identity permutation.
 -/
@@ -271,6 +273,87 @@ def dataframe (flipX : V → V) (vmin vmax : V → V → V) (entries : List (Ent
 /-- the rows of the dataframe: index tuple next to its value -/
 def dataframeRows (df : DataFrame V) : List ((SrcId × Nat × Nat × Nat) × V) :=
   df.index.zip df.values
+
+/-! ### the same post-processing with `pixel_agg` as an ARBITRARY reduction (c03post)
+
+`pixel_agg_func = getattr(np, pixel_agg)` is any numpy reduction (`mean`, `median`, `std`, `ptp`, …), applied per
+(source, path index, sensor) to that sensor's own pixel values.  `Agg` above has the three the integer stream can
+run exactly; the `…F` functions take the reduction as a function of the pixel list (`none` = `pixel_agg=None`).
+They are the SAME statements in the same order as `level2Core` / `getBH` / `dataframe` (the order matters:
+collection sum → sensor-frame rotation and handedness flip per sensor → reshape / split into sensors → pixel_agg per
+sensor → sumup over the source axis → squeeze / expand_dims / dataframe); `level2Core_eq_F`, `getBH_eq_F`,
+`dataframe_eq_F` (Lemmas/Level2Post.lean) show that the `Agg` versions are the instances `Agg.fn`.  The driver runs
+`getBHF` / `dataframeF` at `Float` for `mean / median / std / min / max / sum` (family `level2f`). -/
+
+/-- `pixel_agg_func(B, axis=pixel axes)` for an arbitrary reduction `f`: one value per (entry, m, sensor) -/
+def aggTF (f : List V → V) (B : List (List (List (List V)))) : List (List (List (List V))) :=
+  B.map fun Bl => Bl.map fun Bm => Bm.map fun px => [f px]
+
+/-- the reduction an `Agg` name stands for -/
+def Agg.fn (a : Agg) (vmin vmax : V → V → V) : Option (List V → V) :=
+  match a with
+  | .none => Option.none
+  | a => Option.some (aggList a vmin vmax)
+
+def level2CoreF (flipX : V → V) (entries : List (Entry G V))
+    (sensors : List (Sens G V)) (sumup : Bool) (agg : Option (List V → V)) : Except Err (Core V) :=
+  let leaves := entries.flatMap Entry.leaves
+  if entries.isEmpty || sensors.isEmpty || entries.any (fun e => e.leaves.isEmpty) then
+    .error .badUserInput
+  else
+  let shapes := sensors.map (·.pixShape)
+  let allSame := shapes.all (· == shapes.headD [])
+  if agg.isNone && !allSame then .error .badUserInput else
+  let M := pathLen leaves sensors
+  -- [src][m][sensor][pixel]: collection sums, sensor frame, handedness, split into sensors — all done
+  let B3 : List (List (List (List V))) := tensor flipX entries sensors
+  let (pixShapeOut, B4) : List Nat × List (List (List (List V))) :=
+    match agg with
+    | none => (shapes.headD [], B3)
+    | some f => ([], aggTF f B3)
+  let B5 := if sumup then sumupT B4 else B4
+  let nsrc := if sumup then 1 else entries.length
+  .ok { nsrc := nsrc, M := M, pixShapeOut := pixShapeOut, B := B5 }
+
+def getBHF (flipX : V → V) (entries : List (Entry G V))
+    (sensors : List (Sens G V)) (sumup squeeze : Bool) (agg : Option (List V → V)) : Except Err (Out V) :=
+  match level2CoreF flipX entries sensors sumup agg with
+  | .error e => .error e
+  | .ok c =>
+  let shape0 := [c.nsrc, c.M, sensors.length] ++ c.pixShapeOut
+  let shape1 :=
+    if squeeze then shape0.filter (· ≠ 1)
+    else if agg.isSome then shape0 ++ [1] else shape0
+  .ok { shape := shape1, data := flat4 c.B }
+
+def dataframeF (flipX : V → V) (entries : List (Entry G V))
+    (sensors : List (Sens G V)) (sumup : Bool) (agg : Option (List V → V)) : Except Err (DataFrame V) :=
+  match level2CoreF flipX entries sensors sumup agg with
+  | .error e => .error e
+  | .ok c =>
+  let srcIds : List SrcId :=
+    if sumup && entries.length > 1 then [.sumup entries.length]
+    else (List.range entries.length).map .src
+  let sensIds := List.range sensors.length
+  let numOfPixels := if agg.isNone then ((sensors.map (·.pixShape)).headD []).foldl (· * ·) 1 else 1
+  .ok { index := product4 srcIds (List.range c.M) sensIds (List.range numOfPixels),
+        values := flat4 c.B }
+
+/-- the seeded change `C04/C03 agg-before-frame` as a counter-model (NOT what the code does; used only by the witness
+theorems `aggregate_then_rotate_*` in Props/C03): pixel_agg per sensor on the GLOBAL-frame values, then the
+sensor-frame rotation / flip applied once per sensor to the aggregated value -/
+def tensorAggFirst (flipX : V → V) (f : List V → V) (entries : List (Entry G V)) (sensors : List (Sens G V)) :
+    List (List (List (List V))) :=
+  let leaves := entries.flatMap Entry.leaves
+  let M := pathLen leaves sensors
+  let B0 := leaves.map (leafB sensors M)
+  let B1 := if leaves.length > entries.length then collapse 0 (entries.map Entry.colLen) B0 else B0
+  let Bagg : List (List (List V)) := B1.map fun Bl => Bl.map fun row => (splitRow (pixInds sensors) row).map f
+  let one : List (Sens G V) := sensors.map fun k => { k with pixels := [0], pixShape := [1] }
+  (applySensors flipX one Bagg).map fun Bl => Bl.map fun row => row.map fun v => [v]
+
+/-- the seeded change `C06b tile-resize` as a counter-model: a short path repeated cyclically (`np.resize`) -/
+def cyclicGet {α : Type} (xs : List α) (m : Nat) : Option α := xs[m % xs.length]?
 
 end
 /-- local-frame field function of a homogeneous magnet for the fields J and M: the vector `pol` (polarization, resp.
